@@ -206,7 +206,11 @@ func TestVerifDriverC05Concurrent(t *testing.T) {
 	var fails int64
 	workers := 8 * runtime.GOMAXPROCS(-1)
 	const perRound = 1000
-	deadline := time.Now().Add(5 * time.Second)
+	budget := 5 * time.Second
+	if os.Getenv("VERIF_DRIVER_REASON") == "thorough" {
+		budget = 20 * time.Second // thorough tier
+	}
+	deadline := time.Now().Add(budget)
 	rounds := 0
 	for round := 0; atomic.LoadInt64(&fails) == 0 && time.Now().Before(deadline); round++ {
 		rounds++
